@@ -74,14 +74,14 @@ Section Steps.
   (* reschedule_queue, first section *)
   Lemma ws_rq1 s a q push rest : Inv_own s -> Inv_wake s -> stacks s !! a = Some (FRQ1 :: rest) ->
     T.(ft_base).(t_resched) s.(qs) (negb (bool_decide (s.(jobs) = []))) = (q, push) ->
-    Inv_wake (setstack (s <| qs := q |>) a (if push then FRQ2 :: rest else rest)).
+    Inv_wake (setstack (kickall (s <| qs := q |>)) a (if push then FRQ2 :: rest else rest)).
   Proof.
     intros HO [IF IQ] Hst E.
     set (new := if push then FRQ2 :: rest else rest).
-    assert (Hnew : forall fr, fr ∈ new -> fr ∈ rest \/ frame_ok (setstack (s <| qs := q |>) a new) a fr = true).
+    assert (Hnew : forall fr, fr ∈ new -> fr ∈ rest \/ frame_ok (setstack (kickall (s <| qs := q |>)) a new) a fr = true).
     { subst new. destruct push; [intros fr [->|Hin]%elem_of_cons; [by right|by left]|by left]. }
-    assert (Hs : stacks (setstack (s <| qs := q |>) a new) = <[a := new]> (stacks s)) by solve_stacks.
-    assert (Hc : forall e, cover (setstack (s <| qs := q |>) a new) e = cover s e).
+    assert (Hs : stacks (setstack (kickall (s <| qs := q |>)) a new) = <[a := new]> (stacks s)) by solve_stacks.
+    assert (Hc : forall e, cover (setstack (kickall (s <| qs := q |>)) a new) e = cover s e).
     { intros e. eapply cover_same; [exact Hst|exact Hs| |done|done|done]. subst new. by destruct push. }
     destruct (owned (qs s)) eqn:Ho.
     - assert (q = qs s) as -> by (eapply (wc_resched_other _ HW); [exact E|by destruct (qs s)]).
